@@ -7,6 +7,22 @@ HERE = os.path.dirname(os.path.dirname(os.path.abspath(__file__)))
 
 # id -> (technique, what the check decides, trusted / assumed)
 CLAIMED = {
+    'C01': ('affine normal forms of the search-window / slice arithmetic + structured path conditions + sibling agreement + exhaustive evaluation of the dtype table',
+            'Decides the premises of the set-equality argument: both search loops (start, window end, restart at loc+1, exit on miss, yielded '
+            'position and strand), slice bounds per strand and their composition with the yielded positions (adjacent to the prefix, length k, '
+            'inside the sequence), strand dispatch, ValueError-only skip discipline, case folding, both accumulators (dtype, storage, '
+            'sorted-unique result), index_dtype for every k in 1..32, per-sequence loop with one shared accumulator, input-type coverage.',
+            'bytes.find semantics; np.flatnonzero / ndarray.sort; encoder correctness is C07. The implication premises => exact set is a hand argument.'),
+    'C02': ('abstract interpretation of the merge kernel over the ordering domain {<,=,>} + affine normal forms + fused-type/dtype table agreement (custom Cython front end)',
+            'Decides that the kernel counts the union exactly for every pair of sorted arrays (the data are provably touched only through '
+            'comparisons, so three orderings are exhaustive), the tail and zero-guard, that the result is one binary32 division of exactly '
+            'converted integers (2u-N-M)/u, the independent unsigned fused types, wrappers, and that every kernel operand passes the dtype gate.',
+            'C usual arithmetic conversions between unsigned widths; IEEE-754 correctly rounded division; sets < 2^24 elements.'),
+    'C15': ('role-swap invariance of the facts extracted by the C02 abstract interpretation + the C02 kernel rules re-evaluated',
+            'Decides bit-for-bit symmetry structurally (loop condition, ordering table, loads, tail and numerator are invariant under swapping the '
+            'argument roles; independent fused types give width independence) and the premise that the kernel computes |A xor B|/|A or B| rounded once. '
+            'Range, identity, disjointness, triangle inequality and strict decrease are mathematical consequences, stated not machine-checked.',
+            'As C02; monotonicity of correctly rounded division.'),
     'C07': ('finite-domain table extraction from the .pyx (custom Cython front end) + affine index forms + guard dominance',
             'Decides the structural clauses of the codec: one loop iteration of each encoder is evaluated for all 256 byte values, the '
             'decoder for all 16 low-digit pairs, the complement table for all 256 bytes; read/write indices, shift order, k<=32 guard, '
